@@ -1399,8 +1399,27 @@ pub fn debug_seed(o: &CheckOpts, stream: u64, idx: usize, reps: usize, pad: usiz
     }
     // vary the parent's allocation history
     let _padding: Vec<Vec<u8>> = (0..pad).map(|i| vec![0u8; 1000 + i * 37]).collect();
-    for _ in 0..reps {
-        let mut spec = workload::make_spec(&pool, &ix, seed_for(o.seed, stream, idx), RunKind::Short, true);
+    let kind = match std::env::var("SC_DEBUG_KIND").as_deref() {
+        Ok("long") => RunKind::Long { calls: 8000 },
+        Ok("wide") => RunKind::Wide,
+        Ok("crowd") => RunKind::Crowd,
+        _ => RunKind::Short,
+    };
+    if std::env::var("SC_DEBUG_BUCKETS").is_ok() {
+        for b in &ix.hint_buckets {
+            let (ev, tok, list) = &ix.fn_buckets[*b];
+            println!("hint bucket ev={} tok={} entries={}", ev, tok, list.len());
+            for e in list.iter().take(60) {
+                let en = &pool.entries[*e as usize];
+                println!("   {:?} {:?} ticks={} origin={}", en.call.expr, en.call.ph, en.ticks, en.origin);
+            }
+        }
+    }
+    let count: usize = std::env::var("SC_DEBUG_COUNT").ok().and_then(|s| s.parse().ok()).unwrap_or(1);
+    for k in 0..reps * count {
+        let idx = idx + k / reps;
+        let mut spec = workload::make_spec(&pool, &ix, seed_for(o.seed, stream, idx), kind, true);
+        println!("idx {} faults {:?} threads {} calls {}", idx, spec.faults_enabled, spec.clients.len(), spec.clients.iter().map(|c| c.len()).sum::<usize>());
         spec.want_trace = true;
         let mut got: Option<RunResult> = None;
         let tmo = std::env::var("SC_DEBUG_TIMEOUT_S").ok().and_then(|s| s.parse().ok()).unwrap_or(5u64);
